@@ -196,6 +196,23 @@ package builder
 //@   props C10
 //@   at call uploadDirectory#1 assert every-tree-starts-empty: len(dState.directories) == 0 && len(dState.directoriesSeen) == 0
 
+// Every declared output is looked at: the outputs that resolve to the input
+// root and the tree of all other outputs, whatever the first found; and a
+// failure to create a nested parent directory is reported, not dropped.
+// treewalked(nil): the output tree below the root was walked by this call;
+// nestedfailure(nil): a nested createParentDirectories call of this call failed.
+//@ ghost map treewalked(ref) int zero
+//@ ghost map nestedfailure(ref) int zero
+//@ func (*OutputHierarchy).UploadOutputs
+//@   props C10
+//@   at call uploadOutputs#1 ghostset treewalked[nil] = 1
+//@   ensures all-declared-outputs-are-considered: treewalked(nil) == 1
+//@ func (*outputNode).createParentDirectories
+//@   props C10
+//@   at call createParentDirectories#1 ghostset nestedfailure[nil] = nestedfailure(nil) + ite(r0 != nil, 1, 0)
+//@   loop 0 invariant nestedfailure(nil) == old(nestedfailure(nil))
+//@   ensures nested-failures-are-reported: nestedfailure(nil) > old(nestedfailure(nil)) ==> r0 != nil
+
 // The deadline until which the scheduler may believe this worker is executing
 // counts from the time the scheduler expects the next synchronization, not
 // from the local clock: one minute past that the scheduler has purged the
